@@ -20,7 +20,7 @@ func TestC12(t *testing.T) {
 	ev.Rule(id, "rapid-generated multi-package programs (all annotation kinds mixed, no @ignore, every site tagged) and chains of 1-3 transformations from: permute top-level declarations of a file, move a declaration to another (possibly new) file of the package, insert blank lines / ordinary comments, go/format, consistently rename parameters / receivers / locals (closure parameters deliberately shadow the receiver's name in the base). oracle = metamorphic: {(site tag, code)} equal before and after, for TONL01/PKGO01 {(using package, type)}; baseline from the real tool. non-trivial = chain that reorders declarations of a file holding a function and a package-level declaration with a site, moves a declaration to another file, or renames a shadowing variable - and the base has >=1 diagnostic; distinct by hash of (base, transformed)")
 	cfg := engine.DefaultConfig()
 	rapid.Check(t, func(rt *rapid.T) {
-		p := proggen.Gen(rt, proggen.GenOpts{Focus: "all", MinPkgs: 1, MaxPkgs: 3, TestFiles: true, Aliases: true, Rich: true})
+		p := proggen.Gen(rt, proggen.GenOpts{Focus: "all", MinPkgs: 1, MaxPkgs: 3, TestFiles: true, XTest: true, Aliases: true, Rich: true})
 		base := loadOrBug(rt, id, p, cfg)
 		srcA := p.Sources()
 		pkgsA := pkgDirs(p)
